@@ -585,9 +585,10 @@ let run_efi mo jo impl secs =
 (* ---- CMP: CompressedPGMIndex ---- *)
 let run_cmp mo jo impl secs =
   match secs with
-  | ("CMP" :: id :: _name :: kb :: eps :: epsrec :: fd :: _) :: _ ->
+  | ("CMP" :: id :: _name :: kb :: eps :: epsrec :: fd :: rest) :: _ ->
     let kt = { kbits = zin kb; ksigned = false } in
-    let c = { c_kt = kt; c_eps = zin eps; c_epsrec = zin epsrec; c_fdouble = (fd = "1"); c_par = zi 1; c_avx512 = !avx512 } in
+    let par = match rest with p :: _ -> zin p | [] -> zi 1 in
+    let c = { c_kt = kt; c_eps = zin eps; c_epsrec = zin epsrec; c_fdouble = (fd = "1"); c_par = par; c_avx512 = !avx512 } in
     let data = List.map zin (nth_sec secs 1) and queries = List.map zin (nth_sec secs 2) in
     pr mo "C %s\n" id;
     (match compressed_build c data with
